@@ -33,6 +33,11 @@ fn real_main(args: &[String]) -> i32 {
                 i += 1;
             }
             vharness::util::install_quiet_panic_hook();
+            // safety net: a subject that allocates without bound must fail inside this process
+            // (allocation error → MACHINERY-ERROR) instead of taking the machine down
+            let lim = libc::rlimit { rlim_cur: 40 << 30, rlim_max: 40 << 30 };
+            // SAFETY: plain setrlimit on our own process.
+            unsafe { libc::setrlimit(libc::RLIMIT_AS, &lim) };
             let res = std::panic::catch_unwind(|| vharness::props::run(prop, tier, seed));
             match res {
                 Ok(Some(code)) => code,
